@@ -302,6 +302,12 @@ SHAPES = {
     "binary": dict(ops=[("a", [("s0", "one", 1)]), ("b", [("s1", "one", 1)]), ("c", [("a", "one", 1), ("b", "one", 1)])], want=["c"]),
     # c = f(a, a): repeated argument
     "repeated-arg": dict(ops=[("a", [("s0", "one", 1)]), ("c", [("a", "one", 1), ("a", "one", 1)])], want=["c"]),
+    # c = f(a, a) / f(a, s1, a) where a is produced from a *stream* (iterator) or a list of blocks
+    "repeated-arg-stream": dict(ops=[("a", [("s0", "iter", 2)]), ("c", [("a", "one", 1), ("a", "one", 1)])], want=["c"]),
+    "repeated-arg-list": dict(ops=[("a", [("s0", "list", 2)]), ("c", [("a", "one", 1), ("s1", "one", 1), ("a", "one", 1)])], want=["c"]),
+    # fusion tree of depth 3 over mixed key-function shapes
+    "depth3-mixed": dict(ops=[("a", [("s0", "iter", 2)]), ("b", [("a", "list", 2), ("s1", "one", 1)]), ("c", [("b", "one", 1), ("b", "one", 1)]),
+                              ("d", [("c", "iter", 2)])], want=["d"]),
     # diamond: b = f(a), c = g(a), d = h(b, c): a is shared by two consumers
     "diamond": dict(ops=[("a", [("s0", "one", 1)]), ("b", [("a", "one", 1)]), ("c", [("a", "one", 1)]), ("d", [("b", "one", 1), ("c", "one", 1)])], want=["d"]),
     # mixed levels: c = f(s0, a) where a = g(s0)
@@ -369,7 +375,9 @@ def snapshot(dag):
 
 
 class FusionSpec(FuncSpec):
-    props = ("C02",)
+    # C15's second half: after fusion each original function still receives the blocks it would have received
+    # unfused, in the same structure (lists stay lists, streams stay streams)
+    props = ("C02", "C15")
     bounded = ("plan shapes enumerated (chains, diamonds, repeated arguments, mixed levels, reductions over lists/iterators, "
                "multi-output operations, unfusable operations, shared intermediates, fan-in, virtual inputs); list/iterator "
                "arguments of length 2",)
@@ -498,6 +506,7 @@ class MultipleInputsOptimize(FusionSpec):
 
 @register
 class SimpleOptimize(FusionSpec):
+    quick_props = ("C02",)
     """simple_optimize_dag(dag, array_names): the legacy map-fusion optimiser (linear chains, `fuse`)."""
 
     target = f"{OPT}:simple_optimize_dag"
@@ -519,6 +528,7 @@ class SimpleOptimize(FusionSpec):
 
 @register
 class FuseAllOptimize(FusionSpec):
+    quick_props = ("C02",)
     target = f"{OPT}:fuse_all_optimize_dag"
     native_optimizer = "fuse_all_optimize_dag"
 
@@ -537,6 +547,7 @@ class FuseAllOptimize(FusionSpec):
 
 @register
 class FuseOnlyOptimize(FusionSpec):
+    quick_props = ("C02",)
     target = f"{OPT}:fuse_only_optimize_dag"
 
     def configs(self, tier):
@@ -602,10 +613,18 @@ class FuseBlockwiseSpecs(FusionSpec):
         "list<-iter,two": ([("p0", "list", 2), ("p1", "one", 1)], {"p0": [("s0", "iter", 2)], "p1": [("s1", "one", 1), ("s2", "one", 1)]}),
         "one<-two-sources": ([("p0", "one", 1)], {"p0": [("s0", "one", 1), ("s1", "list", 2)]}),
         "list<-none": ([("s0", "list", 2), ("p0", "one", 1)], {"p0": [("s1", "one", 1)]}),
+        "two<-same-stream": ([("p0", "one", 1), ("p0", "one", 1)], {"p0": [("s0", "iter", 2)]}),
+        "three<-same-list,none,same": ([("p0", "one", 1), ("s1", "one", 1), ("p0", "one", 1)], {"p0": [("s0", "list", 2)]}),
+        "iter<-same-stream": ([("p0", "iter", 2), ("p0", "one", 1)], {"p0": [("s0", "iter", 2)]}),
     }
 
     def configs(self, tier):
         return [dict(case=k, gen=g) for k in self.CASES for g in (False, True)]
+
+    def replay(self, cfg, model, ob):
+        opargs, preds = self.CASES[cfg["case"]]
+        return ("import sys\nsys.path.insert(0, '/verif')\nfrom pyvc.replay_opt import run_fuse_case\n"
+                f"reproduced, detail = run_fuse_case({opargs!r}, {preds!r}, gen={bool(cfg['gen'])!r})\n")
 
     def setup(self, c):
         opargs, preds = self.CASES[c.cfg["case"]]
